@@ -110,12 +110,16 @@ pub struct Pat {
 const KIND_RE: [&str; 8] = ["", r"\d+", "[ab]+", "[^/]*", "a|bb", ".+", "(a|b)+", r"v(\d)?"];
 
 impl Pat {
-    fn n_dyn(&self) -> usize {
+    pub fn n_dyn(&self) -> usize {
         self.segs.iter().filter(|s| matches!(s, Seg::Dyn(_))).count() + usize::from(self.tail)
     }
-    fn text(&self) -> String {
+    pub fn text(&self) -> String {
+        self.text_from(0)
+    }
+    /// pattern text with dynamic segments named p{base}, p{base+1}, ...
+    pub fn text_from(&self, base: usize) -> String {
         let mut t = String::new();
-        let mut n = 0;
+        let mut n = base;
         for s in &self.segs {
             match s {
                 Seg::Static(x) => t.push_str(x),
@@ -169,7 +173,7 @@ impl Pat {
 }
 
 /// Model: `Some((matched_len, capture spans))`
-fn model_match(p: &Pat, prefix: bool, path: &[u8]) -> Option<(usize, Vec<(usize, usize)>)> {
+pub fn model_match(p: &Pat, prefix: bool, path: &[u8]) -> Option<(usize, Vec<(usize, usize)>)> {
     let body = p.ast(prefix);
     let n = p.n_dyn();
     let mut caps: Caps = vec![None; n];
@@ -227,7 +231,7 @@ fn static_text() -> impl Strategy<Value = String> {
         .prop_map(|v| v.into_iter().collect::<String>())
 }
 
-fn pat_strategy(allow_tail: bool, heavy: bool) -> impl Strategy<Value = Pat> {
+pub fn pat_strategy(allow_tail: bool, heavy: bool) -> impl Strategy<Value = Pat> {
     (
         proptest::collection::vec(
             prop_oneof![
@@ -376,7 +380,7 @@ pub enum Case {
 const PATH_ALPHA: [u8; 7] = [b'/', b'a', b'b', b'1', b'-', b'v', b'.'];
 const Q_ALPHA: [u8; 9] = [b'%', b'2', b'F', b'f', b'5', b'4', b'1', b'G', b'/'];
 
-fn ref_requote(input: &[u8], protected: &[u8]) -> Option<Vec<u8>> {
+pub fn ref_requote(input: &[u8], protected: &[u8]) -> Option<Vec<u8>> {
     let hex = |c: u8| (c as char).to_digit(16).map(|d| d as u8);
     let mut out = Vec::with_capacity(input.len());
     let mut i = 0;
@@ -403,7 +407,7 @@ fn ref_requote(input: &[u8], protected: &[u8]) -> Option<Vec<u8>> {
     }
 }
 
-fn sample_value(kind: u8, sel: u16) -> String {
+pub fn sample_value(kind: u8, sel: u16) -> String {
     let pick = |opts: &[&str]| opts[(sel as usize) % opts.len()].to_string();
     match kind {
         0 => pick(&["x", "abc", "a-b", "1.v", "%2F", "v1"]),
